@@ -3,6 +3,7 @@ package nexus
 import (
 	"context"
 	"fmt"
+	"math"
 	"sync"
 )
 
@@ -184,6 +185,9 @@ func (v *VLANAllocator) findAvailable() (uint16, uint16, error) {
 			v.currentSTag = sTag
 			return sTag, cTag, nil
 		}
+		if sTag == math.MaxUint16 {
+			break // sTag++ would wrap to 0 and leave the range
+		}
 	}
 
 	// Wrap around and try from start
@@ -211,6 +215,9 @@ func (v *VLANAllocator) findAvailableCTag(sTag uint16) (uint16, error) {
 	for cTag := v.config.CTagRange.Start; cTag <= v.config.CTagRange.End; cTag++ {
 		if _, used := usage[cTag]; !used {
 			return cTag, nil
+		}
+		if cTag == math.MaxUint16 {
+			break // cTag++ would wrap to 0 and leave the range
 		}
 	}
 
